@@ -430,9 +430,12 @@ def run(ctx):
                        "walks at debug levels 0/1/3/5 and TLC-validated recorded histories")
     ctx.assumptions += ["glibc loader: one handle per file, RTLD_GLOBAL scope in order of first open, dlsym(NULL) = default scope",
                         "the shared objects are built with the same compiler as the harness (harness/module_mod.c)",
-                        "ASan build of the current tree (clang -O1); dlopen/dlclose/dlsym/dlerror interposed with -Wl,--wrap",
+                        "ASan build of the current tree (clang -O1); dlopen/dlclose/dlsym/dlerror/exit interposed with -Wl,--wrap",
                         "run / call / the two handle setters are first executed in a forked child (a fatal signal there is reported as an "
-                        "invariant failure of the step instead of costing the harness process)"]
+                        "invariant failure of the step instead of costing the harness process); the verdict is reused for the same call "
+                        "shape within one harness process",
+                        "lookups through an unloaded object while a catalogue library is open run in a forked child (glibc would pin the "
+                        "library that answers a default-scope lookup of the program for the life of the process)"]
 
 
 def replay(ctx, path):
